@@ -12,6 +12,7 @@ RULE_TRACE = ("direction B: seeded drivers run histories on the real code (all 1
 
 
 def c01(run):
+    run.format_theorems(Q(run, 1, 6))
     wire_design(run, [])
     run.trace("roundtrip-canon", Q(run, 4, 60))
     run.trace("stream", Q(run, 2, 10), seed_off=100)
@@ -25,6 +26,7 @@ def c02(run):
     run.trace("tables", Q(run, 1, 3), seed_off=200)
     path, st = run.child_trace(run.spec_images(Q(run, 2, 12), reencode=False), "spec-images")
     run.judge(path, st, "spec-images")
+    run.trace("registry-frames", Q(run, 20, 200), types=["sse.SseBinary", "szse.SzseBinary", "sample.RootPacket"], seed_off=300)
     run.assumptions += ["the pinned schema was frozen from the pinned commit (the .pdsl sources are not in the repository); byte order is per protocol, taken from the scalar fields"]
     return run.finish(RULE_TRACE)
 
@@ -84,6 +86,7 @@ def c07(run):
 
 
 def c08(run):
+    run.format_theorems(Q(run, 1, 6))
     run.trace("reencode", Q(run, 5, 80))
     path, st = run.child_trace(run.spec_images(Q(run, 2, 12)), "spec-images")
     run.judge(path, st, "spec-images")
@@ -131,6 +134,7 @@ RULE_HOSTILE = ("direction A: TLC derives, from sample values of all 170 types, 
 
 
 def c11(run):
+    run.format_theorems(Q(run, 1, 6))
     run.trace("cut", Q(run, 1, 12), chunk=4000)
     run.trace("prim-cut", Q(run, 1, 8), seed_off=100)
     return run.finish(RULE_TRACE + "Every cut position 0..len-1 of each encoding (all cuts within the first/last 150 bytes plus 100 random ones for encodings over 400 bytes).")
